@@ -253,7 +253,7 @@ def run_c29(v):
     quick = v.tier == "quick"
     mc = lib.tlc_mc("MC_Vector.tla", "MC_Vector.cfg", timeout=3000, coverage=False)
     lib.require_mc_ok(mc, "MC_Vector")
-    s = _family(v, "vector", {"C29"}, 10 if quick else 150, 24 if quick else 60)
+    s = _family(v, "vector", {"C29"}, 10 if quick else 800, 24 if quick else 60)
     v.coverage.update({
         "states": mc["distinct"], "transitions": mc["states"],
         "traces_validated_against_impl": s["scenarios"], "requests_judged": s["requests"],
